@@ -141,7 +141,9 @@ HTok == << <<"CL", ":", "sp", "2", "CR", "LF">>,       \* 1 Content-Length: 2
            <<"CL", ":", "sp", "1", "2", "CR", "LF">>,   \* 16 Content-Length: 12
            <<"CL", ":", "sp", "2">>,                    \* 17 header line without terminator
            <<"UK", ":", "sp", "LONG", "CR", "LF", "CL", ":", "sp", "2", "CR", "LF">>,     \* 18 an unknown field longer than any read buffer, then Content-Length: 2
-           <<"UK", ":", "sp", "j", ":", "j", ":", "CR", "LF", "CL", ":", "sp", "1", "CR", "LF">> >>   \* 19 an unknown field whose value contains colons (Host: a:80), then Content-Length: 1
+           <<"UK", ":", "sp", "j", ":", "j", ":", "CR", "LF", "CL", ":", "sp", "1", "CR", "LF">>,     \* 19 an unknown field whose value contains colons (Host: a:80), then Content-Length: 1
+           <<"sp", "CR", "LF">>,                        \* 20 a line of white space: not blank (it does not end the header section), not a header line
+           <<"sp", "CL", ":", "sp", "1", "CR", "LF">> >>   \* 21 an indented Content-Length: the name of the field is " Content-Length", an unknown one
 
 RECURSIVE Flatten(_)
 Flatten(ts) == IF ts = <<>> THEN <<>> ELSE HTok[Head(ts)] \o Flatten(Tail(ts))
